@@ -98,6 +98,48 @@ Proof.
     do 6 (destruct p as [p|p|]; try exact H). contradiction.
 Qed.
 
+Lemma starts_close_spec s : starts_close s = true -> exists r, s = 45%N :: 45%N :: 62%N :: r.
+Proof.
+  destruct s as [|a [|b [|c r]]]; cbn [starts_close]; try discriminate;
+    try (destruct a as [|p]; [discriminate|]; do 6 (destruct p as [p|p|]; try discriminate)).
+  - destruct b as [|p]; discriminate || (do 6 (destruct p as [p|p|]; try discriminate)).
+  - destruct b as [|p]; [discriminate|]. do 6 (destruct p as [p|p|]; try discriminate).
+    destruct c as [|p]; [discriminate|]. do 6 (destruct p as [p|p|]; try discriminate).
+    intros _. now exists r.
+Qed.
+
+Lemma find_end_spec s : forall b, find_end s = Some b -> exists r, s = b ++ 45%N :: 45%N :: 62%N :: r.
+Proof.
+  induction s as [|c t IH]; intros b H; [discriminate|].
+  cbn [find_end] in H. destruct (starts_close (c :: t)) eqn:Hs.
+  - injection H as <-. destruct (starts_close_spec _ Hs) as [r Hr]. exists r. exact Hr.
+  - destruct (find_end t) as [b'|] eqn:Hf; [|discriminate]. injection H as <-.
+    destruct (IH _ eq_refl) as [r ->]. now exists r.
+Qed.
+
+Lemma firstn_app_close (b r : str) :
+  firstn (length b + 3) (b ++ 45%N :: 45%N :: 62%N :: r) = b ++ [45%N; 45%N; 62%N].
+Proof. induction b as [|x b IH]; [reflexivity|]. cbn [length Nat.add app firstn]. now rewrite IH. Qed.
+
+Definition com_ok (t : str) (e : node) (k : nat) : Prop :=
+  k <= length t /\ str_node e = 60%N :: firstn k t /\ wf_node e /\ canon_node e = true /\ is_text e = false.
+
+Lemma try_comment_spec t e k : try_comment t = Some (e, k) -> com_ok t e k.
+Proof.
+  unfold try_comment, com_ok. intros H.
+  destruct t as [|a [|b [|c rest]]]; try discriminate;
+    try (destruct a as [|p]; [discriminate|]; do 6 (destruct p as [p|p|]; try discriminate)).
+  - destruct b as [|p]; discriminate || (do 6 (destruct p as [p|p|]; try discriminate)).
+  - destruct b as [|p]; [discriminate|]. do 6 (destruct p as [p|p|]; try discriminate).
+    destruct c as [|p]; [discriminate|]. do 6 (destruct p as [p|p|]; try discriminate).
+    destruct (find_end rest) as [body|] eqn:Hf; [|discriminate]. injection H as <- <-.
+    destruct (find_end_spec _ _ Hf) as [r ->].
+    set_firstn (S (S (S (length body + 3)))).
+    repeat rewrite firstn_cons. rewrite firstn_app_close.
+    repeat split; try reflexivity.
+    cbn [length]. rewrite app_length. cbn [length]. lia.
+Qed.
+
 Fixpoint etext (ps : list epiece) : str :=
   match ps with
   | [] => []
@@ -125,7 +167,14 @@ Proof.
            destruct (IH k Hle) as [E P]. cbn [etext epieces_ok]. rewrite Hs, E.
            cbn [app]. rewrite firstn_skipn. repeat split; assumption.
         -- destruct (IH 0 (Nat.le_0_l _)) as [E P]. cbn [etext epieces_ok]. rewrite E. now split.
-      * destruct (IH 0 (Nat.le_0_l _)) as [E P]. cbn [etext epieces_ok]. rewrite E. now split.
+      * destruct (c =? 60)%N eqn:Hc2.
+        -- apply N.eqb_eq in Hc2. subst c.
+           destruct (try_comment t) as [[e k]|] eqn:Ht.
+           ++ destruct (try_comment_spec _ _ _ Ht) as (Hle & Hs & Hw & Hcn & Hnt).
+              destruct (IH k Hle) as [E P]. cbn [etext epieces_ok]. rewrite Hs, E.
+              cbn [app]. rewrite firstn_skipn. repeat split; assumption.
+           ++ destruct (IH 0 (Nat.le_0_l _)) as [E P]. cbn [etext epieces_ok]. rewrite E. now split.
+        -- destruct (IH 0 (Nat.le_0_l _)) as [E P]. cbn [etext epieces_ok]. rewrite E. now split.
     + cbn [length] in Hk. cbn [skipn]. apply IH. lia.
 Qed.
 
@@ -236,7 +285,8 @@ Proof.
   cbn [scan]. destruct skip as [|k]; [|now apply IH].
   rewrite (try_entity_ext t Ht). destruct (c =? 38)%N.
   - destruct (try_entity m2 names max_size t) as [[e k]|]; now rewrite IH.
-  - now rewrite IH.
+  - destruct (c =? 60)%N; [|now rewrite IH].
+    destruct (try_comment t) as [[e k]|]; now rewrite IH.
 Qed.
 
 Theorem efrag_tokens_ext s : (forall c, In c s -> is_marker m1 c = is_marker m2 c) ->
